@@ -14,3 +14,4 @@ INVARIANT QuiescentIsDefault
 PROPERTY Restores
 PROPERTY Isolation
 PROPERTY RefusedIsNoop
+PROPERTY InnerFaultIsNoop
